@@ -24,13 +24,17 @@ def ensure_evh():
     if os.path.isdir(f"{EVH}/sim") and os.path.isdir(f"{EVH}/repo"):
         sh(f"git -C {EVH}/repo checkout -q -- . && git -C {EVH}/repo clean -fdq -e target")
         # refresh harness sources
-        sh(f"rsync -a --delete --exclude target --exclude Cargo.toml /verif/sim/ {EVH}/sim/")
+        sh(f"rsync -a --delete --exclude target --exclude 'target-*' --exclude Cargo.toml /verif/sim/ {EVH}/sim/")
+        t = open("/verif/sim/Cargo.toml").read().replace('path = "/repo"', f'path = "{EVH}/repo"')
+        open(f"{EVH}/sim/Cargo.toml", "w").write(t)
+        shutil.copy("/verif/check", f"{EVH}/check")
         return
     shutil.rmtree(EVH, ignore_errors=True)
     os.makedirs(EVH)
     sh("git -C /repo worktree prune")
     rc, o = sh(f"git -C /repo worktree add -q --detach {EVH}/repo HEAD"); assert rc == 0, o
     shutil.copytree("/verif/sim", f"{EVH}/sim", ignore=shutil.ignore_patterns("target", "target-*"))
+    shutil.copy("/verif/check", f"{EVH}/check")
     t = open(f"{EVH}/sim/Cargo.toml").read().replace('path = "/repo"', f'path = "{EVH}/repo"')
     open(f"{EVH}/sim/Cargo.toml", "w").write(t)
 
@@ -40,7 +44,7 @@ def main():
     scale = "0.3"
     on_repo = "--on-repo" in sys.argv
     for i, a in enumerate(sys.argv):
-        if a == "--props": props = sys.argv[i + 1].split(",")
+        if a == "--props": props = [] if sys.argv[i + 1] == "none" else sys.argv[i + 1].split(",")
         if a == "--scale": scale = sys.argv[i + 1]
     patch = os.path.abspath(f"{mutdir}/patch{k}.diff"); demo = os.path.abspath(f"{mutdir}/demo{k}.rs")
     res = {"mutdir": mutdir, "k": k}
@@ -49,10 +53,17 @@ def main():
     feats = ""
     head = open(demo).read()[:1500]
     if re.search(r"features?.*(serde|rayon)", head): feats = "--features serde,rayon"
-    res["demo_features"] = feats
+    # demo<k>.cmd: the cargo arguments the demonstration needs (build configuration), e.g. "--release" or "+nightly --features nightly"
+    tool = ""
+    cmdf = f"{mutdir}/demo{k}.cmd"
+    if os.path.exists(cmdf):
+        feats = open(cmdf).read().strip()
+        if feats.startswith("+"):
+            tool, _, feats = feats.partition(" ")
+    res["demo_features"] = (tool + " " + feats).strip()
     # clean tree: demo passes
     shutil.copy(demo, f"{wt}/tests/demo_seed.rs")
-    rc, o = sh(f"cargo test --offline {feats} --test demo_seed 2>&1 | tail -15", cwd=wt)
+    rc, o = sh(f"cargo {tool} test --offline {feats} --test demo_seed 2>&1 | tail -15", cwd=wt)
     res["demo_passes_clean"] = suite_ok(o)
     os.remove(f"{wt}/tests/demo_seed.rs")
     rc, o = sh(f"git apply {patch}", cwd=wt)
@@ -63,7 +74,7 @@ def main():
     rc, o2 = sh("cargo test --offline --features serde,rayon 2>&1 | grep -E 'test result|FAILED|error' | head", cwd=wt)
     res["suite_passes_default"] = suite_ok(o1); res["suite_passes_serde_rayon"] = suite_ok(o2)
     shutil.copy(demo, f"{wt}/tests/demo_seed.rs")
-    rc, o = sh(f"cargo test --offline {feats} --test demo_seed 2>&1 | tail -15", cwd=wt)
+    rc, o = sh(f"cargo {tool} test --offline {feats} --test demo_seed 2>&1 | tail -15", cwd=wt)
     res["demo_fails_patched"] = ("FAILED" in o or "panicked" in o) and "could not compile" not in o
     os.remove(f"{wt}/tests/demo_seed.rs")
     # checks
@@ -80,14 +91,14 @@ def main():
     else:
         out = f"{EVH}/out"; shutil.rmtree(out, ignore_errors=True); os.makedirs(out + "/evidence"); os.makedirs(out + "/replays")
         shutil.copy("/verif/known_findings.json", out)
-        env = dict(ENVB, VERIF_DIR=out)
-        rc, o = sh("cargo build --release --offline 2>&1 | tail -20", cwd=f"{EVH}/sim")
-        if "Finished" not in o:
-            res["harness_build"] = o[-1500:]
-        else:
+        env = dict(ENVB, VERIF_SCALE=scale)
+        for d in ("evidence", "replays"):
+            shutil.rmtree(f"{EVH}/{d}", ignore_errors=True); os.makedirs(f"{EVH}/{d}")
+        shutil.copy("/verif/known_findings.json", EVH)
+        if True:
             for p in props:
                 t0 = time.time()
-                rc, o = sh(f"{EVH}/sim/target/release/avsim --property {p} --tier quick --scale {scale}", env=env)
+                rc, o = sh(f"{EVH}/check {p} quick", env=env)
                 caught[p] = {"exit": rc, "classes": re.findall(r"violation class=(\S+)", o)[:4], "s": round(time.time() - t0, 1)}
                 if rc == 2: caught[p]["err"] = o[-400:]
     sh(f"git -C {wt} checkout -q -- .")
